@@ -12,6 +12,12 @@
   evaluating the linked code — and identified with the model below; the
   interleaving model itself is tied by the correspondence run (harness/props/c19).
 
+  Worker start-up (`C19_worker_count_is_code`, `C19_close_waits_for_both_workers`,
+  `C19_flushed_when_close_returns`, `C19_self_registering_workers_lose_events`): the constructor
+  only spawns the two workers; Close() counts them before it closes the channel, so it returns
+  only after both have been scheduled and have finished, and at that instant everything accepted
+  has been handed to the write function and nothing happens any more.
+
   The hand-over (`C19_handover_is_code`, `C19_accepted_in_pipeline`, `C19_full_channel_blocks`):
   WriteEvent returns only after its message is in the channel, a full channel makes the
   producer wait, so every accepted event is in channel ∪ hand ∪ buffer ∪ written.
@@ -34,7 +40,8 @@ open Writer
     what go/ast finds in writer.go / fifobuffer.go today. -/
 theorem C19_constants_are_code :
     codeCfg = { cap := Gen.C19.chanCap, batchMax := Gen.C19.popMax,
-                drainOnDone := Gen.C19.drainOnDone, releaseSticky := Gen.C19.releaseSticky } := by
+                drainOnDone := Gen.C19.drainOnDone, releaseSticky := Gen.C19.releaseSticky,
+                selfRegister := Gen.C19.workersSelfRegister } := by
   decide
 
 /-- Shape facts the model relies on: the done token fits its channel (the batching loop
@@ -105,21 +112,21 @@ theorem C19_batch_bound (c : Cfg) (sched : List Step) :
     two states that agree on those agree on `publish`, whatever the writing loop is doing
     (parked in a write call, waiting, gone).
     (2) And the batching loop alone keeps the channel from staying full: from ANY state with
-    the channel open, however long the write function stays parked (no writing-loop step, no
+    the channel open and the batching loop scheduled, however long the write function stays parked (no writing-loop step, no
     `writeDone` occurs in the schedule), `n` rounds "push, receive, publish" get `n` further
     events accepted — nothing is written meanwhile and a writing loop that is not waiting
     does not move. -/
 theorem C19_producers_never_wait_on_broker (c : Cfg) (hcap : 0 < c.cap) :
     (∀ (s s' : State) (p : Nat), s.closed = s'.closed → s.chan = s'.chan →
         enabled c s (.publish p) = enabled c s' (.publish p)) ∧
-    (∀ (s : State) (p n : Nat), s.closed = false → s.bpc = .loop → s.chan.length ≤ c.cap →
+    (∀ (s : State) (p n : Nat), s.closed = false → s.bpc = .loop → s.chan.length ≤ c.cap → s.bStarted = true →
         let s' := run c s (feedN p n)
         s'.pubs.length = s.pubs.length + n ∧ s'.written = s.written ∧
         (s.wpc ≠ .waiting → s'.wpc = s.wpc)) := by
   refine ⟨?_, ?_⟩
-  · intro s s' p h1 h2; simp [enabled, h1, h2]
-  · intro s p n h1 h2 h3
-    obtain ⟨_, hp, hw, hwpc⟩ := feedN_spec c hcap p n s ⟨h1, h2, h3⟩
+  · intro s s' p h1 h2; simp [enabled, started, ready, h1, h2]
+  · intro s p n h1 h2 h3 h4
+    obtain ⟨_, hp, hw, hwpc⟩ := feedN_spec c hcap p n s ⟨h1, h2, h3, h4⟩
     exact ⟨hp, hw, hwpc⟩
 
 /-- The rounds contain no step of the writing loop and no return of the write function. -/
@@ -186,7 +193,7 @@ theorem C19_accepted_in_pipeline (c : Cfg) (sched : List Step) :
       have : (pending.filter fun p => !enabled c s (.publish p)) = [] := by
         apply List.filter_eq_nil_iff.mpr
         intro p _
-        simp [enabled, hcl, hroom]
+        simp [enabled, started, ready, hcl, hroom]
       rw [this]; rfl
     · right; omega
 
@@ -212,20 +219,21 @@ theorem C19_full_channel_blocks (c : Cfg) :
     | nil => rfl
     | cons p rest ih =>
       have hdis : enabled c s (.publish p) = false := by
-        simp only [enabled, Bool.and_eq_false_iff, decide_eq_false_iff_not]
+        simp only [enabled, started, ready, Bool.true_and, Bool.and_eq_false_iff, decide_eq_false_iff_not]
         right; omega
       simp only [List.map_cons, run, step, hdis]
       exact ih
   · intro s p hen
     simp [step, hen, fire]
   · intro s p hcl
-    simp [enabled, hcl]
+    simp [enabled, started, ready, hcl]
   · intro s p hcl hle hen
     simp only [step, hen, if_true, fire]
-    simp only [enabled, Bool.and_eq_true, beq_iff_eq, Bool.not_eq_true', List.isEmpty_eq_false_iff] at hen
+    replace hen := ready_of_enabled hen
+    simp only [ready, Bool.and_eq_true, beq_iff_eq, Bool.not_eq_true', List.isEmpty_eq_false_iff] at hen
     have hne : s.chan ≠ [] := hen.2
     have hpos : 0 < s.chan.length := List.length_pos_iff.mpr hne
-    simp only [enabled, hcl, Bool.not_false, Bool.true_and, decide_eq_true_eq, List.length_tail]
+    simp only [enabled, started, ready, hcl, Bool.not_false, Bool.true_and, decide_eq_true_eq, List.length_tail]
     omega
 
 /-! ## partition key -/
@@ -264,14 +272,14 @@ def C19_flush_full (c : Cfg) : Prop :=
     loops are gone, the channel and the batching loop's hand are empty and no write call is
     in flight, so the ONLY place an accepted event can be left behind is the FIFO buffer:
     `delivered ++ buf = pubs`; if the buffer is empty at that point, everything was flushed. -/
-theorem C19_flush_partial (c : Cfg) (sched : List Step) :
+theorem C19_flush_partial (c : Cfg) (hsr : c.selfRegister = false) (sched : List Step) :
     let s := run c init sched
     s.closeCompleted = true →
       s.chan = [] ∧ s.hand = none ∧ s.wpc = .exited ∧ s.bpc = .exited ∧
       delivered s ++ s.buf = s.pubs ∧ (s.buf = [] → delivered s = s.pubs) := by
   intro s hc
   have h := inv_reach c sched
-  obtain ⟨hw, hb⟩ := h.completed hc
+  obtain ⟨_, hw, hb⟩ := (invW_reach c hsr sched).completed hc
   obtain ⟨hch, hh, _⟩ := h.batcherGone (by rw [hb]; simp)
   have hcons := h.cons
   have hs : s = run c init sched := rfl
@@ -303,7 +311,7 @@ theorem C19_flush_quiescent (c : Cfg) (pre post : List Step) :
   have hclosed : (step c s0 .close).closed = true := by
     unfold step; split
     · rfl
-    · rename_i hne; simpa [enabled] using hne
+    · rename_i hne; simpa [enabled, started, ready] using hne
   have hsame : (step c s0 .close).pubs = s0.pubs := by unfold step; split <;> rfl
   -- pubs never changes once closed
   have frozen : ∀ (t : State) (l : List Step), t.closed = true → (run c t l).pubs = t.pubs := by
@@ -315,7 +323,7 @@ theorem C19_flush_quiescent (c : Cfg) (pre post : List Step) :
       have hp : (step c t st).pubs = t.pubs := by
         unfold step; split
         · rename_i hen
-          cases st <;> simp only [fire] <;> (try split) <;> (try split) <;> simp_all [enabled]
+          cases st <;> simp only [fire] <;> (try split) <;> (try split) <;> simp_all [enabled, started, ready]
         · rfl
       show (run c (step c t st) rest).pubs = t.pubs
       rw [ih _ (step_closed c t st ht), hp]
@@ -362,7 +370,7 @@ theorem C19_flush_quiescent (c : Cfg) (pre post : List Step) :
     `select` takes it and returns, Close returns — nothing was written. -/
 theorem C19_finding_close_drops_buffered : ¬ C19_flush_full legacyCfg := by
   intro h
-  have := h [.publish 0, .publish 0, .batchRecv, .batchPush, .batchRecv, .batchPush,
+  have := h [.writerStart, .batchStart, .publish 0, .publish 0, .batchRecv, .batchPush, .batchRecv, .batchPush,
              .close, .batchDone, .broadcast, .writerSelect, .closeReturn]
   revert this; decide
 
@@ -371,7 +379,8 @@ theorem C19_finding_close_drops_buffered : ¬ C19_flush_full legacyCfg := by
     write call; when it returns the writing loop sees the token and leaves two in the buffer. -/
 theorem C19_finding_close_drops_buffered_replay :
     let s := run legacyCfg init
-      [.publish 0, .batchRecv, .batchPush, .writerSelect, .writerPop,          -- first write parked with 1 event
+      [.writerStart, .batchStart,                                               -- both workers are running
+       .publish 0, .batchRecv, .batchPush, .writerSelect, .writerPop,          -- first write parked with 1 event
        .publish 0, .publish 0, .batchRecv, .batchPush, .batchRecv, .batchPush,   -- two more accepted and buffered
        .close, .batchDone, .broadcast,                                            -- Close; batching loop done
        .writeDone, .writerSelect, .closeReturn]                                   -- release; writer sees done
@@ -380,18 +389,122 @@ theorem C19_finding_close_drops_buffered_replay :
 
 /-- With the drain repair (notes/C19.fix.patch, `drainOnDone`) the full statement holds, for
     every capacity, batch size and schedule. -/
-theorem C19_flush_fixed (c : Cfg) (hd : c.drainOnDone = true) (sched : List Step) :
+theorem C19_flush_fixed (c : Cfg) (hd : c.drainOnDone = true) (hsr : c.selfRegister = false) (sched : List Step) :
     let s := run c init sched
     s.closeCompleted = true → delivered s = s.pubs := by
   intro s hc
   have h := inv_reach c sched
-  have hp := C19_flush_partial c sched hc
+  have hp := C19_flush_partial c hsr sched hc
   exact hp.2.2.2.2.2 (h.drained hd hp.2.2.1)
 
 /-- **Flush on shutdown, in full, for the code as it is** (`codeCfg` has the drain; tied to the
     source by `C19_constants_are_code`). -/
 theorem C19_flush_code : C19_flush_full codeCfg :=
-  fun sched => C19_flush_fixed codeCfg rfl sched
+  fun sched => C19_flush_fixed codeCfg rfl rfl sched
+
+/-! ## worker start-up: Close() waits for workers that have not run yet
+
+  The constructor only spawns the two workers; events can be accepted and Close() can be called
+  before the scheduler has run either of them for the first time (`writerStart`, `batchStart` are
+  steps of the schedule like any other).  "Flushed on shutdown" means: at the instant Close()
+  RETURNS everything accepted has been handed to the write function — not eventually. -/
+
+/-- The model's counting is the code's (go/ast, writer.go): the only `runningWorkers.Add` of the
+    file is `Add(2)` in Close(), executed before `close(toBatchMessagesChan)`, which comes before
+    `Wait()`, which comes before the kafka.Writer is closed; no worker registers itself; there are
+    exactly two `Done()` calls — the statement before the `return` of the writing loop's done clause
+    and the last statement of the batching loop —; the constructor spawns exactly the two workers,
+    each once (and so does the verification hook), and a worker that has been scheduled is at its
+    loop at once (no statement in front of the `for` / `range`). -/
+theorem C19_worker_count_is_code :
+    codeCfg.selfRegister = Gen.C19.workersSelfRegister ∧ Gen.C19.wgAddCalls = 1 ∧ Gen.C19.wgCloseAdd = 2 ∧
+    Gen.C19.wgCloseOrder = true ∧ Gen.C19.wgDoneCalls = 2 ∧ Gen.C19.wgWriterDoneLast = true ∧
+    Gen.C19.wgBatcherDoneLast = true ∧ Gen.C19.workerGoStmts = 2 ∧ Gen.C19.workersSpawned = true ∧
+    Gen.C19.loopPrologue = 0 ∧ Gen.C19.hookSpawnsWorkers = true := by
+  decide
+
+/-- **Close() returns only after both workers have finished**, for every schedule — the ones in
+    which Close() is called before a worker was scheduled for the first time included — of every
+    configuration in which Close() counts the workers itself: (1) once Close() has been called
+    the WaitGroup counter is exactly the number of workers that have not finished, started or not
+    (0 before); (2) when Close() has returned both workers HAVE been scheduled and have finished
+    and the counter is 0; (3) as long as a worker has not been scheduled `Wait()` cannot return. -/
+theorem C19_close_waits_for_both_workers (c : Cfg) (hsr : c.selfRegister = false) (sched : List Step) :
+    let s := run c init sched
+    (s.wg = if s.closed then liveW s.wpc + liveB s.bpc else 0) ∧
+    (s.closeCompleted = true →
+      s.wStarted = true ∧ s.bStarted = true ∧ s.wpc = .exited ∧ s.bpc = .exited ∧ s.wg = 0) ∧
+    (s.closed = true → (s.wStarted = false ∨ s.bStarted = false) → enabled c s .closeReturn = false) := by
+  intro s
+  have hw : InvW s := invW_reach c hsr sched
+  refine ⟨hw.counted, ?_, ?_⟩
+  · intro hc
+    obtain ⟨hcl, hwp, hbp⟩ := hw.completed hc
+    refine ⟨?_, ?_, hwp, hbp, ?_⟩
+    · cases hx : s.wStarted with
+      | true => rfl
+      | false => have := hw.wUn hx; rw [hwp] at this; cases this
+    · cases hx : s.bStarted with
+      | true => rfl
+      | false => have := hw.bUn hx; rw [hbp] at this; cases this
+    · rw [hw.counted, hwp, hbp]; simp [liveW, liveB]
+  · intro hcl hun
+    have hpos : s.wg ≠ 0 := by
+      rw [hw.counted]
+      rcases hun with hx | hx
+      · simp [hcl, liveW, hw.wUn hx]
+      · simp [hcl, liveB, hw.bUn hx]
+    simp [enabled, started, ready, hpos]
+
+/-- **Flushed at the instant Close() returns**, for every schedule `pre` after which Close() has
+    returned (code: drain repair, workers counted by Close()): everything accepted has been handed
+    to the write function (as lists and as counts — the snapshot a caller takes right after
+    Close()), no write call is in progress, and NOTHING happens afterwards: whatever is scheduled
+    later (`post`) leaves the state as it is, in particular no write call begins after Close()
+    has returned. -/
+theorem C19_flushed_when_close_returns (c : Cfg) (hd : c.drainOnDone = true) (hsr : c.selfRegister = false)
+    (pre post : List Step) :
+    let s := run c init pre
+    s.closeCompleted = true →
+      delivered s = s.pubs ∧ (delivered s).length = s.pubs.length ∧ s.wpc ≠ .writing ∧
+      run c s post = s ∧ (run c init (pre ++ post)).written = s.written := by
+  intro s hc
+  have hw : InvW s := invW_reach c hsr pre
+  have hfl : delivered s = s.pubs := C19_flush_fixed c hd hsr pre hc
+  have hq : run c s post = s := run_after_return c s hw hc post
+  refine ⟨hfl, by rw [hfl], ?_, hq, ?_⟩
+  · rw [(hw.completed hc).2.1]; simp
+  · rw [run_append]; exact congrArg State.written hq
+
+/-- The same for the code as it is. -/
+theorem C19_flushed_when_close_returns_code (pre post : List Step) :
+    let s := run codeCfg init pre
+    s.closeCompleted = true →
+      delivered s = s.pubs ∧ (delivered s).length = s.pubs.length ∧ s.wpc ≠ .writing ∧
+      run codeCfg s post = s ∧ (run codeCfg init (pre ++ post)).written = s.written :=
+  C19_flushed_when_close_returns codeCfg rfl rfl pre post
+
+/-- The self-registering variant (every worker does `Add(1)` when it starts running, Close() adds
+    nothing) is NOT the code and does not have the property: (1) the full flush statement fails;
+    (2) two events accepted, Close() called before either worker was scheduled: the counter is 0,
+    `Wait()` returns at once, Close() has returned with both events still in the hand-over channel;
+    (3) the workers start afterwards and the event reaches the write function AFTER Close() has
+    returned (in production: a closed kafka.Writer); (4) with only the batching loop started the
+    counter goes 1 → 0 when it finishes and Close() returns with the event in the buffer. -/
+theorem C19_self_registering_workers_lose_events :
+    ¬ C19_flush_full selfRegisterCfg ∧
+    (let s := run selfRegisterCfg init [.publish 0, .publish 0, .close, .closeReturn]
+     s.closeCompleted = true ∧ delivered s = [] ∧ s.chan = [(0, 0), (0, 1)] ∧ s.wg = 0) ∧
+    (let s0 := run selfRegisterCfg init [.publish 0, .close, .closeReturn]
+     let s := run selfRegisterCfg s0 [.batchStart, .writerStart, .batchRecv, .batchPush, .writerSelect, .writerPop]
+     s0.closeCompleted = true ∧ s0.written = [] ∧ s.written = [[(0, 0)]]) ∧
+    (let s := run selfRegisterCfg init
+       [.batchStart, .publish 0, .close, .batchRecv, .batchPush, .batchDone, .broadcast, .closeReturn]
+     s.closeCompleted = true ∧ s.wStarted = false ∧ s.buf = [(0, 0)] ∧ delivered s = []) := by
+  refine ⟨?_, by decide, by decide, by decide⟩
+  intro h
+  have := h [.publish 0, .close, .closeReturn]
+  revert this; decide
 
 /-! ## Close terminates -/
 
@@ -411,7 +524,8 @@ def C19_close_terminates_full (c : Cfg) : Prop :=
     further steps can happen (no livelock, whatever the interleaving), and a state in which
     nothing can happen is either "Close has returned" or the lost wake-up: the writing loop
     inside `cond.Wait()` with the batching loop — the only goroutine that signals — gone. -/
-theorem C19_close_terminates_partial (c : Cfg) (hb : 0 < c.batchMax) (sched more : List Step) :
+theorem C19_close_terminates_partial (c : Cfg) (hb : 0 < c.batchMax) (hsr : c.selfRegister = false)
+    (sched more : List Step) :
     let s := run c init sched
     let s' := run c s more
     s.closed = true → allEnabled c s more = true →
@@ -432,7 +546,16 @@ theorem C19_close_terminates_partial (c : Cfg) (hb : 0 < c.batchMax) (sched more
         | nil => intro h; exact h
         | cons st rest ih => intro h; exact ih _ (step_closed c t st h)
       exact this s more hcl
-    have := stuck_is_lostWakeup c s' hcl' hcc hnp
+    have hw' : InvW s' := by
+      have : s' = run c init (sched ++ more) := by
+        show run c (run c init sched) more = _
+        rw [run_append]
+      rw [this]; exact invW_reach c hsr _
+    have hwg : s'.wpc = .exited → s'.bpc = .exited → s'.wg = 0 := by
+      intro h1 h2
+      have := hw'.counted
+      rw [this, h1, h2]; simp [liveW, liveB]
+    have := stuck_is_lostWakeup c s' hcl' hcc hwg hnp
     rw [this] at hnl; cases hnl
 
 /-- The known finding, machine-checked on the faithful model — no event needed: the writing
@@ -441,19 +564,19 @@ theorem C19_close_terminates_partial (c : Cfg) (hb : 0 < c.batchMax) (sched more
     the buffer empty and waits — for ever; Close never returns. -/
 theorem C19_finding_close_lost_wakeup : ¬ C19_close_terminates_full legacyCfg := by
   intro h
-  have := h [.writerSelect, .close, .batchDone, .broadcast, .writerPop] [] (by decide) (by decide)
+  have := h [.writerStart, .batchStart, .writerSelect, .close, .batchDone, .broadcast, .writerPop] [] (by decide) (by decide)
   revert this; decide
 
 /-- With the sticky-release repair (`releaseSticky`) the full statement holds for every
     capacity, positive batch size and schedule: bounded, and stuck only when Close returned. -/
 theorem C19_close_terminates_fixed (c : Cfg) (hs : c.releaseSticky = true) (hb : 0 < c.batchMax)
-    (sched more : List Step) :
+    (hsr : c.selfRegister = false) (sched more : List Step) :
     let s := run c init sched
     let s' := run c s more
     s.closed = true → allEnabled c s more = true →
       more.length ≤ rank s ∧ (canProgress c s' = false → s'.closeCompleted = true) := by
   intro s s' hcl hen
-  obtain ⟨h1, h2⟩ := C19_close_terminates_partial c hb sched more hcl hen
+  obtain ⟨h1, h2⟩ := C19_close_terminates_partial c hb hsr sched more hcl hen
   refine ⟨h1, fun hnp => h2 hnp ?_⟩
   have hinv : Inv c s' := by
     have : s' = run c init (sched ++ more) := by
@@ -468,7 +591,7 @@ theorem C19_close_terminates_fixed (c : Cfg) (hs : c.releaseSticky = true) (hb :
 
 /-- **Close terminates, in full, for the code as it is.** -/
 theorem C19_close_terminates_code : C19_close_terminates_full codeCfg :=
-  fun sched more => C19_close_terminates_fixed codeCfg rfl (by decide) sched more
+  fun sched more => C19_close_terminates_fixed codeCfg rfl (by decide) rfl sched more
 
 /-- Both repairs together: after any schedule of the repaired model, if Close was called and
     nothing more can happen, Close has returned and everything accepted was delivered. -/
@@ -476,9 +599,9 @@ theorem C19_fixed_model_flushes_and_terminates (sched : List Step) :
     let s := run fixedCfg init sched
     s.closed = true → canProgress fixedCfg s = false → s.closeCompleted = true ∧ delivered s = s.pubs := by
   intro s hcl hnp
-  have h := C19_close_terminates_fixed fixedCfg rfl (by decide) sched [] hcl rfl
+  have h := C19_close_terminates_fixed fixedCfg rfl (by decide) rfl sched [] hcl rfl
   have hc := h.2 hnp
-  exact ⟨hc, C19_flush_fixed fixedCfg rfl sched hc⟩
+  exact ⟨hc, C19_flush_fixed fixedCfg rfl rfl sched hc⟩
 
 
 /-! ## the registry of the core: per writer = per topic
@@ -645,7 +768,8 @@ set_option maxRecDepth 8192 in
     everything delivered in order. -/
 example :
     let s := run codeCfg init
-      [.writerSelect, .writerPop,                                   -- writing loop waits on the empty buffer
+      [.batchStart, .writerStart,                                   -- both workers get to run
+       .writerSelect, .writerPop,                                   -- writing loop waits on the empty buffer
        .publish 0, .publish 1, .publish 0, .batchRecv, .batchPush,   -- first push signals it
        .batchRecv, .batchPush, .writerWake,                          -- it wakes with two buffered: batch of 2
        .batchRecv, .batchPush, .publish 1, .publish 1, .writeDone,
@@ -656,13 +780,30 @@ example :
     s.closeCompleted = true ∧ s.written = [[(0, 0), (1, 0)], [(0, 1), (1, 1), (1, 2)]] ∧ delivered s = s.pubs := by
   decide
 
+/-- Worker start-up is not vacuous: three events are accepted and Close() is called before either
+    worker has been scheduled; `Wait()` cannot return (counter 2); the workers start, move and write
+    everything, finish, the counter reaches 0 and Close() returns with everything delivered. -/
+example :
+    let pre : List Step := [.publish 0, .publish 1, .publish 0, .close]
+    let s0 := run codeCfg init pre
+    let s := run codeCfg s0
+      [.closeReturn,                                                  -- not enabled: nothing happens
+       .writerStart, .writerSelect, .batchStart,
+       .batchRecv, .batchPush, .batchRecv, .batchPush, .writerPop,     -- batch of 2
+       .batchRecv, .batchPush, .batchDone, .broadcast, .writeDone,
+       .writerSelect,                                                  -- done token seen: drains the third event
+       .writeDone, .writerSelect, .closeReturn]
+    s0.wg = 2 ∧ enabled codeCfg s0 .closeReturn = false ∧
+    s.closeCompleted = true ∧ s.written = [[(0, 0), (1, 0)], [(0, 1)]] ∧ delivered s = s.pubs ∧ s.wg = 0 := by
+  decide
+
 /-- The hand-over theorems are not vacuous: with a channel of two slots, one message in the
     batching loop's hand and the batching loop held up, the fourth and fifth `publish` do not
     happen (both producers wait), the snapshot says so and satisfies `snapOk`; an observation
     in which those calls HAD returned with the channel full is rejected by `snapOk`. -/
 example :
     let c : Cfg := { codeCfg with cap := 2 }
-    let s := run c init [.publish 0, .batchRecv, .publish 0, .publish 1, .publish 1, .publish 0]
+    let s := run c init [.batchStart, .publish 0, .batchRecv, .publish 0, .publish 1, .publish 1, .publish 0]
     s.pubs = [(0, 0), (0, 1), (1, 0)] ∧ s.chan = [(0, 1), (1, 0)] ∧ s.hand = some (0, 0) ∧
     snapOf c s 2 [0, 1] = { acc := [2, 1], chan := 2, hand := 1, buf := 0, written := 0, blocked := [0, 1] } ∧
     snapOk c.cap (snapOf c s 2 [0, 1]) = true ∧
